@@ -619,6 +619,16 @@ func search(r *hx.Rng, n int, dist map[string]int) (evals int, distinct int, vs 
 			if got := hx.Guard(func() string { return exec(op) }); got != want {
 				add("ft-18", op, "SetFT/GetFT/AddFT/SubFT at 18 decimals = "+got+" want "+want)
 			}
+			// d in 0..18: written and read back = rounded down to the token granularity 10^(18-d)
+			d := r.Intn(19)
+			k := pow10(18 - d)
+			fl := new(big.Int).Quo(v, k)
+			fl.Mul(fl, k)
+			op2 := "ft " + strconv.Itoa(d) + " s" + v.String() + " g"
+			seen[op2] = true
+			if got := hx.Guard(func() string { return exec(op2) }); got != "ft s g:"+fl.String() {
+				add("ft-granularity", op2, "SetFT then GetFT = "+got+" want ft s g:"+fl.String())
+			}
 		case 0: // format -> parse round trip over the balance / EVM word range, both signs
 			v := genInt(r, dist)
 			if !inDomain(v) {
